@@ -73,6 +73,14 @@ var peerScripts = []peerScript{
 	{"grant-vote", func(p *peer.Peer, t *recTransport) error {
 		return p.Step(myraft.Message{Type: myraft.MsgRequestVote, From: 2, To: 1, Term: 5, LogTerm: 1, Index: 2})
 	}},
+	{"term-raised-then-vote-granted", func(p *peer.Peer, t *recTransport) error {
+		// a stale candidate at term 5: we move to term 5 without voting and reject
+		if err := p.Step(myraft.Message{Type: myraft.MsgRequestVote, From: 2, To: 1, Term: 5, LogTerm: 0, Index: 0}); err != nil {
+			return err
+		}
+		// an up-to-date request in the same term: vote-only hard-state change, then the grant is sent
+		return p.Step(myraft.Message{Type: myraft.MsgRequestVote, From: 2, To: 1, Term: 5, LogTerm: 1, Index: 2})
+	}},
 	{"follower-append-then-overwrite", func(p *peer.Peer, t *recTransport) error {
 		t.inj[3], t.inj[4] = ent{3, "f3"}, ent{3, "f4"}
 		if err := p.Step(myraft.Message{Type: myraft.MsgAppend, From: 2, To: 1, Term: 3, LogTerm: 1, Index: 2, Commit: 2,
